@@ -44,6 +44,19 @@ def run(ctx):
             bad = [pb for pb in pushes if pb in reach and not any(pb == g for _, g in guarded)]
             if bad and f_t is not None and not any(fsu.dominates(f_t, pb) for pb in bad):
                 ctx.violation(R_P, "%s|tick-edge-in-preds" % key, "a delayed (tick) edge can be pushed into the same-tick predecessor map: a legal deferred cycle would be rejected", fsu.loc(bad[0]))
+    # every insertion made by the loop over the graph's pipe edges is on the not-a-tick-edge side of the test
+    import guards as _g
+    G2 = _g.Guards(fsu, {"contains_key"})
+    edge_iter_types = set(fsu.locals[t["dst"]] for bb, t in fsu.calls() if t.get("f") and t["f"]["name"] == "edges" and not fsu.is_cleanup(bb) and isinstance(t.get("dst"), int))
+    heads = [bb for bb, t in fsu.calls() if t.get("f") and t["f"]["name"] == "next" and not fsu.is_cleanup(bb) and (t["f"].get("self") or "") in edge_iter_types]
+    pipe_pushes = [pb for pb in pushes if not fsu.is_cleanup(pb) and any(fsu.dominates(h, pb) and h in fsu.reachable(start=pb) for h in heads)]
+    if not heads:
+        ctx.anchor_missing(R_P, "the loop over partitioned_graph.edges() in find_subgraph_unionfind")
+    for pb in pipe_pushes:
+        if ("contains_key", False) not in G2.guards_of(pb):
+            if True:
+                ctx.violation(R_P, "%s|tick-edge-in-preds" % key, "the loop over the graph's pipe edges inserts an edge into the same-tick predecessor map without the `!tick_edges.contains_key(edge)` "
+                              "test: a delayed (tick) edge becomes a same-tick dependency and a legal deferred cycle is rejected", fsu.loc(pb))
     ctx.inst(R_P, key + "|pipe-edges", sites=len(cks), sample={"contains_key_blocks": [b for b, _ in cks], "guarded_pushes": guarded})
     if len(set(cb for cb, _ in guarded)) < 1:
         ctx.violation(R_P, key + "|pipe-edges-unguarded", "no push into the predecessor map is guarded by `!tick_edges.contains_key(edge)`", fsu.loc())
